@@ -42,8 +42,7 @@ Definition nd_nonascii : list (N * N) :=
    (125264,125273); (130032,130041)]%N.
 
 (* `\d` of the regex crate in its default (Unicode) mode *)
-Definition is_nd (c : N) : bool :=
-  is_digit c || existsb (fun r => (fst r <=? c) && (c <=? snd r))%N nd_nonascii.
+Definition is_nd (c : N) : bool := is_digit c.     (* the class [0-9] of DATE_REGEX (was \d before the fix) *)
 
 (* '-' = 45, ':' = 58, ' ' = 32, '+' = 43 *)
 Definition is_sep (c : N) : bool := ((c =? 45) || (c =? 58))%N.
@@ -235,7 +234,7 @@ Definition parse_datetime (now : Z) (x : str) : dtres :=
         else if (2 <=? byte_len x) && (starts_with [43%N] x || starts_with [45%N] x) then
           match parse_i64 x with
           | Some n => Det (Ok (day_interval (now + n)))
-          | None => Det (Panic site_days)
+          | None => Det (Exit2 (msg_parse ++ x))
           end
         else Det (Exit2 (msg_parse ++ x))
     end.
@@ -344,12 +343,12 @@ Example ex_min60 : parse_datetime 0 (s "2023-12-11 10:60") = Det (Exit2 (msg_par
 Proof. vm_compute. reflexivity. Qed.
 Example ex_sec60 : parse_datetime 0 (s "2023-12-11 10:59:60") = Det (Exit2 (msg_parse ++ s "2023-12-11 10:59:60")).
 Proof. vm_compute. reflexivity. Qed.
-(* ARABIC-INDIC digits U+0660.. are matched by \d but rejected by parse::<i32>() *)
+(* ARABIC-INDIC digits U+0660.. are not matched by [0-9] (they were by \d, and then made parse::<i32>() panic) *)
 Example ex_unicode_digits :
-  parse_datetime 0 ([1634;1632;1634;1635;45;1633;1634;45;1633;1633]%N) = Det (Panic site_year).
+  parse_datetime 0 ([1634;1632;1634;1635;45;1633;1634;45;1633;1633]%N) = Unmodelled.
 Proof. vm_compute. reflexivity. Qed.
 Example ex_unicode_hour :
-  parse_datetime 0 (s "2023-12-11 " ++ [1633]%N) = Det (Panic site_hour).
+  parse_datetime 0 (s "2023-12-11 " ++ [1633]%N) = parse_datetime 0 (s "2023-12-11").
 Proof. vm_compute. reflexivity. Qed.
 Example ex_unmodelled : parse_datetime 0 (s "2 days ago 00:00") = Unmodelled.
 Proof. vm_compute. reflexivity. Qed.
@@ -357,10 +356,10 @@ Example ex_short_err : parse_datetime 0 (s "abc") = Det (Exit2 (msg_parse ++ s "
 Proof. vm_compute. reflexivity. Qed.
 Example ex_minus2 : parse_datetime 100 (s "-2") = Det (Ok (day_interval 98)).
 Proof. vm_compute. reflexivity. Qed.
-Example ex_plus_bad : parse_datetime 100 (s "+a") = Det (Panic site_days).
+Example ex_plus_bad : parse_datetime 100 (s "+a") = Det (Exit2 (msg_parse ++ s "+a")).
 Proof. vm_compute. reflexivity. Qed.
-(* '+' 'e-acute' is 3 bytes: reaches the i64 parse and panics; three e-acute are 6 bytes: chrono_english *)
-Example ex_bytes : parse_datetime 100 [43;233]%N = Det (Panic site_days)
+(* '+' 'e-acute' is 3 bytes: reaches the i64 parse, which fails; three e-acute are 6 bytes: chrono_english *)
+Example ex_bytes : parse_datetime 100 [43;233]%N = Det (Exit2 (msg_parse ++ [43;233]%N))
   /\ parse_datetime 100 [233;233;233]%N = Unmodelled.
 Proof. vm_compute. split; reflexivity. Qed.
 Example ex_format : format_datetime 1709251199 = s "2024-02-29 23:59:59"
